@@ -167,11 +167,21 @@ func RunAll(rep *core.Report, props map[string]bool, scripts []Script, cfgs []Co
 			}
 		}()
 	}
+	skipped := 0
 	for i, sc := range scripts {
+		// a tree in which every script ends in a convergence time-out would take hours: once enough violations
+		// are on record the remaining scripts add nothing to the verdict
+		if rep.ViolationCount() >= 20 {
+			skipped = len(scripts) - i
+			break
+		}
 		jobs <- job{i, sc}
 	}
 	close(jobs)
 	wg.Wait()
+	if skipped > 0 {
+		rep.Note("%d scripts were not executed: %d violations had been recorded already", skipped, rep.ViolationCount())
+	}
 	if len(other) > 0 {
 		rep.Extra["monitor_failures_of_other_properties"] = other
 	}
